@@ -15,6 +15,8 @@ pub fn exec(op: &str, a: &Value) -> Option<Value> {
         "PlainDateTime.fromDateAndTime" => run(|| PlainDateTime::from_date_and_time(arg_date(&a["recv"])?, arg_time(&a["time"])?), p_datetime),
         // the infallible conversion: the value is projected through getters (its Display may panic)
         "PlainDateTime.fromPlainDate" => run(|| Ok(PlainDateTime::from(arg_date(&a["recv"])?)), p_datetime),
+        "PlainDate.toZonedUtc" => run(|| FS.with(|p| { let t = if a.get("time").is_some() { Some(arg_time(&a["time"])?) } else { None };
+            arg_date(&a["recv"])?.to_zoned_date_time_with_provider(utc(), t, p) }), |z| big(z.epoch_nanoseconds().as_i128())),
         "PlainDate.fromStr" => run(|| { let d = &a["d"]; PlainDate::from_str(&format!("{}-{:02}-{:02}", year_str(js::i(d, "y")), js::i(d, "m"), js::i(d, "d"))) }, p_date),
         "PlainDateTime.fromStr" => run(|| { let d = &a["dt"]; PlainDateTime::from_str(&format!("{}-{:02}-{:02}T{:02}:{:02}:{:02}.{:03}{:03}{:03}", year_str(js::i(d, "y")), js::i(d, "m"), js::i(d, "d"),
             js::i(d, "h"), js::i(d, "mi"), js::i(d, "s"), js::i(d, "ms"), js::i(d, "us"), js::i(d, "ns"))) }, p_datetime),
